@@ -45,6 +45,10 @@ ASSUME 129 * SegZ <= U * 257 /\ U * 257 < 129 * (SegZ + 1) /\ DiscR * 128 = U * 
 \* on the segment h = -nu, which runs from -a (centre, lat 0) to -a^2/b = -4161790.01.. (ends, |lat| -> 90)
 SegHEnd == 4161790
 ASSUME 129 * SegHEnd <= 128 * A /\ 128 * A < 129 * (SegHEnd + 1)
+\* prolate f = -1/128: radius of the cusp circle of the evolute in the equatorial plane (b^2 - a^2)/a = a |e^2| = U 257/128,
+\* the twin of DiscR.  It is outside the singular set (which is on the axis), so the answer there is the ordinary exact one.
+CuspR == 65792
+ASSUME CuspR * 128 = U * 257
 
 (* ------------------------------------------------------------------------ *)
 (* Trigonometry on multiples of 90 degrees                                   *)
@@ -55,9 +59,17 @@ SinD(d) == CosD(d - 90)
 NormLon(d) == LET m == (d + 180) % 360 IN m - 180
 SameMeridian(l1, l2) == (l1 - l2) % 360 = 0
 
+(* The WGS84 ellipsoid (Constants.hpp: "the equatorial radius of WGS84 ellipsoid (6378137 m)", "the flattening of   *)
+(* WGS84 ellipsoid (1/298.257223563)"): member WGS of the family, what Geocentric::WGS84() and every default `earth`  *)
+(* argument must be.  Its polar semi-axis is not an integer, so the exact lattice model covers only its equator.      *)
+WGS == 3
+WGS84A == 6378137
+WGS84RF == <<298, 257223563>>       \* 1/f in units of 1e-9, limbs base 1e9
+EqA(fi) == IF fi = WGS THEN WGS84A ELSE A
+
 (* Closed form on the lattice: lat in {-90, 0, 90}, lon multiple of 90, h integer *)
 Fwd(fi, lat, lon, h) ==
-  IF lat = 0 THEN <<(A + h) * CosD(lon), (A + h) * SinD(lon), 0>>
+  IF lat = 0 THEN <<(EqA(fi) + h) * CosD(lon), (EqA(fi) + h) * SinD(lon), 0>>
   ELSE <<0, 0, Sgn(lat) * (SemiB(fi) + h)>>
 
 (* Rotation matrix, row major; columns = east, north, up expressed in X, Y, Z (Geocentric.hpp: v0 = M . v1) *)
@@ -108,7 +120,7 @@ RevSpec(fi, X, Y, Z) ==
   ELSE \* Z = 0, R > 0
     IF cls = "obl" /\ R < DiscR THEN Ans(0, 90, 1, LonsOf(X, Y), -B, -DiscHEdge)             \* singular disc: lat > 0
     ELSE IF cls = "obl" /\ R = DiscR THEN Ans(0, 1, 2, LonsOf(X, Y), R - A, R - A)      \* named rule DiscEdge: 0 or round-off above 0
-    ELSE Ans(0, 0, 0, LonsOf(X, Y), R - A, R - A)
+    ELSE Ans(0, 0, 0, LonsOf(X, Y), R - EqA(fi), R - EqA(fi))
 
 \* Forward image of a lattice answer is principal (Reverse must return it) iff it lies outside the singular set
 Principal(fi, lat, h) ==
@@ -126,6 +138,113 @@ LocalToGeocentric(st, p) == VAdd(st.P0, MatVec(st.R0, p))
 \* multiset of absolute components (a signed permutation matrix preserves it, hence all distances)
 AbsBag(w) == LET S == {Abs(w[1]), Abs(w[2]), Abs(w[3])} IN
              <<S, Cardinality({i \in 1..3 : w[i] = 0}), Abs(w[1]) + Abs(w[2]) + Abs(w[3])>>
+
+(* ------------------------------------------------------------------------ *)
+(* The optional rotation matrix.  Geocentric::Forward/Reverse and            *)
+(* LocalCartesian::Forward/Reverse each have an overload with a trailing     *)
+(* std::vector M: "if the length of the vector is 9, fill with the rotation  *)
+(* matrix in row-major order".  So a vector of any other length is left      *)
+(* alone, and the conversion itself never depends on M.                      *)
+(* One call is observed as <<n, w, same>>: n = length of the vector passed   *)
+(* (pre-filled with sentinels), w = number of its entries that were written, *)
+(* same = every scalar output was written and is bit for bit that of the     *)
+(* overload without M (for n = 9 also: M is bit for bit the matrix the       *)
+(* record's other laws judge).                                               *)
+(* ------------------------------------------------------------------------ *)
+MLen == 9
+MSizes == {0, 8, 9, 10, 18}
+MEntries == {"GF", "GR", "LF", "LR"}      \* Geocentric / LocalCartesian x Forward / Reverse
+MWritten(n) == IF n = MLen THEN MLen ELSE 0
+MCallOK(m) == m[2] = MWritten(m[1]) /\ m[3]
+MFamilyOK(mv) == /\ {mv[i][1] : i \in 1..Len(mv)} = MSizes
+                 /\ \A i \in 1..Len(mv) : MCallOK(mv[i])
+
+(* ------------------------------------------------------------------------ *)
+(* LocalCartesian as an object.  State = <<fi, lat0, lon0, h0>>: the         *)
+(* ellipsoid (family index) and the origin; everything else the object holds *)
+(* (P0, R0) is a function of it (LocalState).  Operations, as tuples         *)
+(* <<op, fi, lat0, lon0, h0>> (unused arguments are ignored):                *)
+(*   c4  LocalCartesian(lat0, lon0, h0, earth)        the general form       *)
+(*   c3  LocalCartesian(lat0, lon0, h0)               earth "default Geocentric::WGS84()"               *)
+(*   c2  LocalCartesian(lat0, lon0)                   h0 "default 0"         *)
+(*   c1  LocalCartesian(earth)                        "Sets lat0 = 0, lon0 = 0, h0 = 0"                 *)
+(*   c0  LocalCartesian()                             both defaults          *)
+(*   r3  Reset(lat0, lon0, h0)   r2  Reset(lat0, lon0)   "Reset the origin": the ellipsoid stays        *)
+(*   cp  copy construction       as  assignment over an unrelated object     *)
+(*   fw, rv  Forward / Reverse (const members)                               *)
+(* z is the representation of the number 0 (the lattice uses integers, the   *)
+(* random histories opaque bit patterns).                                    *)
+(* The law the object must satisfy: after ANY history it is indistinguishable *)
+(* from a fresh object built by the general form at LcGeneral(history).      *)
+(* ------------------------------------------------------------------------ *)
+LcCtors == {"c4", "c3", "c2", "c1", "c0"}
+LcResets == {"r3", "r2"}
+LcKeeps == {"cp", "as", "fw", "rv"}
+LcNone == <<-1>>                          \* no object yet
+LcApply(st, o, z) ==
+  LET op == o[1] IN
+  CASE op = "c4" -> <<o[2], o[3], o[4], o[5]>>
+    [] op = "c3" -> <<WGS, o[3], o[4], o[5]>>
+    [] op = "c2" -> <<WGS, o[3], o[4], z>>
+    [] op = "c1" -> <<o[2], z, z, z>>
+    [] op = "c0" -> <<WGS, z, z, z>>
+    [] op = "r3" -> <<st[1], o[3], o[4], o[5]>>
+    [] op = "r2" -> <<st[1], o[3], o[4], z>>
+    [] OTHER -> st
+\* an operation is enabled on an existing object, a constructor only when there is none
+LcEnabled(st, o) == IF o[1] \in LcCtors THEN st = LcNone ELSE st # LcNone /\ o[1] \in LcResets \cup LcKeeps
+RECURSIVE LcRunFrom(_, _, _, _)
+LcRunFrom(st, ops, i, z) == IF i > Len(ops) THEN st ELSE LcRunFrom(LcApply(st, ops[i], z), ops, i + 1, z)
+LcRun(ops, z) == LcRunFrom(LcNone, ops, 1, z)
+\* the single general-form constructor call a history is equivalent to: the ellipsoid of its constructor, the origin of
+\* its last constructor / Reset
+LcLastSet(ops) == CHOOSE i \in 1..Len(ops) : ops[i][1] \in LcCtors \cup LcResets /\ \A j \in (i + 1)..Len(ops) : ops[j][1] \in LcKeeps
+LcGeneral(ops, z) ==
+  LET e == LcApply(LcNone, ops[1], z)[1]
+      k == LcLastSet(ops)
+      o == LcApply(<<e, z, z, z>>, ops[k], z)
+  IN <<"c4", e, o[2], o[3], o[4]>>
+\* lattice value of a query on an object in state st
+LcLocal(st) == LocalState(st[1], st[2], st[3], st[4])
+\* the exact integer model knows the whole of the lattice ellipsoids and the equator of WGS84
+LcModelled(st) == st[1] \in {0, 1, 2} \/ (st[1] = WGS /\ st[2] = 0)
+
+(* Geocentric as an object: Geocentric(a, f), the singleton WGS84(), copies, and the default constructor ("for use by *)
+(* NormalGravity") whose object is not initialized.  Init(): "true if the object has been initialized";               *)
+(* EquatorialRadius() / Flattening(): "This is the value used in the constructor."                                   *)
+GeoForms == {"ctor", "copy", "assign", "wgs84", "default"}
+GeoFormFis(form) == IF form = "wgs84" THEN {WGS} ELSE IF form = "default" THEN {-1} ELSE 0..(NFam - 1)
+
+(* ------------------------------------------------------------------------ *)
+(* The command-line tool CartConvert (man page): one output line per input   *)
+(* line.  Default: geodetic "lat lon h" -> geocentric "X Y Z"; -r reverse;   *)
+(* -l lat0 lon0 h0 local cartesian instead of geocentric; -e a f ellipsoid   *)
+(* ("By default, the WGS84 ellipsoid is used"); -w longitude first "on input *)
+(* and output"; -p prec: "the number of digits after the decimal point for   *)
+(* geocentric and local cartesion coordinates and for the height"; "for      *)
+(* latitudes and longitudes ... prec + 5" (default 6).                       *)
+(* A tool vector <<"t", mode, fi, w, prec, lat0, lon0, h0, a1, a2, a3>> is   *)
+(* one input line; ToolWant gives the three expected numbers as              *)
+(* <<kind, set of admissible integers>>, kind "len" (metres) / "ang".        *)
+(* ------------------------------------------------------------------------ *)
+ToolModes == {"gf", "gr", "lf", "lr"}
+ToolPoint(mode, fi, lat0, lon0, h0, a1, a2, a3) ==       \* geocentric point of a reverse query
+  IF mode = "gr" THEN <<a1, a2, a3>> ELSE LocalToGeocentric(LocalState(fi, lat0, lon0, h0), <<a1, a2, a3>>)
+ToolWant(mode, fi, w, lat0, lon0, h0, a1, a2, a3) ==
+  IF mode \in {"gf", "lf"} THEN
+    LET P == Fwd(fi, a1, a2, a3)
+        p == IF mode = "gf" THEN P ELSE LocalFwd(LocalState(fi, lat0, lon0, h0), P)
+    IN << <<"len", {p[1]}>>, <<"len", {p[2]}>>, <<"len", {p[3]}>> >>
+  ELSE
+    LET P == ToolPoint(mode, fi, lat0, lon0, h0, a1, a2, a3)
+        a == RevSpec(fi, P[1], P[2], P[3])
+        la == <<"ang", {a.latlo}>>  lo == <<"ang", a.lons>>
+    IN IF w = 1 THEN <<lo, la, <<"len", {a.hlo}>> >> ELSE <<la, lo, <<"len", {a.hlo}>> >>
+\* a reverse query belongs to the tool lattice when its answer is a single lattice point
+ToolExactRev(mode, fi, lat0, lon0, h0, a1, a2, a3) ==
+  LET P == ToolPoint(mode, fi, lat0, lon0, h0, a1, a2, a3) IN
+  OnAxes(P[1], P[2], P[3]) /\ RevSpec(fi, P[1], P[2], P[3]).exact
+ToolDigits(kind, prec) == IF kind = "ang" THEN prec + 5 ELSE prec
 
 (* ------------------------------------------------------------------------ *)
 (* Regimes of Reverse as geometric boxes (see the doc page: far field,       *)
